@@ -35,7 +35,8 @@ Definition state_matches (e : ev) (s : state) (sn : snap) : bool :=
   table_eqb (d_vt d) (sn_vt sn) &&
   set_eqb arow_eqb (d_av d) (sn_av sn) &&
   list_eqb Z.eqb (d_tx d) (sn_tx sn) &&
-  (if ends_tx e then set_eqb chg_eqb (d_chg d) (sn_chg sn) && (sn_uows sn =? 0)%nat else true) &&
+  set_eqb chg_eqb (d_chg d) (sn_chg sn) &&
+  (if ends_tx e then (sn_uows sn =? 0)%nat else true) &&
   negb (s_err s).
 
 Fixpoint all3 {A B C} (f : A -> B -> C -> bool) (a : list A) (b : list B) (c : list C) : bool :=
